@@ -137,6 +137,8 @@ def run(ctx):
         spliced[fn] = {x.name for x in getattr(f, 'inlined_fns', [])}
         subs = [c for c in body.calls() if any(glob_match(p_, n) for n in c.names() for p_ in SUBP)]
         divs = [c for c in body.calls() if any(glob_match(p_, n) for n in c.names() for p_ in DIVP)]
+        # a checked division cannot panic on a zero divisor (it yields None): no floor needed, but its divisor is the step all the same
+        cdivs = [c for c in body.calls() if any(glob_match(p_, n) for n in c.names() for p_ in ('*::checked_rem', '*::checked_div', '*::checked_rem_euclid', '*::checked_div_euclid'))]
         margin = [c for c in subs if len(c.args) == 2 and has(fn_origins(f, c.args[0], 'adapters'), 'p#2') and
                   has(origins(body, c.args[1], False), 'pty:*.security_parameter')]
         # (1) the security parameter reaches the subtraction as configured
@@ -190,7 +192,7 @@ def run(ctx):
         if fn == TXC:
             # the transaction step is aligned on block ranges and never below one range
             step_og = set()
-            for c in divs:
+            for c in divs + cdivs:
                 step_og |= fn_origins(f, c.args[1], True)
             floor_len = has(step_og, 'call:std::cmp::max') or any(has(g_.a_orig | g_.b_orig, 'call:*BlockRange::from_block_number') for g_ in __import__('engine').find_guards(body))
             if not (has(step_og, 'call:*BlockRange::from_block_number') and floor_len):
